@@ -194,5 +194,5 @@ prop("C16", quick={"runs": 12000}, thorough={"runs": 100000000, "budget_s": 900}
      probes=[],
      level_note="Trusted base as for the other checks, plus the detector's model of synchronisation: mutex/RWMutex (release->acquire), sync.Map operations "
      "(acquire+release on the map: coarser than reality, can only hide races), sync/atomic (acquire+release on the address), close->receive on channels, "
-     "goroutine start. Tracked: fields behind pointers to the library's structs and of address-taken local struct variables, slice elements, maps. Not tracked: other captured locals, accesses inside the standard library. A reported pair is a race in every real "
+     "goroutine start. Tracked: fields behind pointers to the library's structs and of address-taken local struct variables, slice elements, maps, locals captured by go-closures that are assigned after their declaration. Not tracked: other locals, accesses inside the standard library. A reported pair is a race in every real "
      "execution in which both accesses happen.")
